@@ -30,7 +30,7 @@ LOOP_TRUE_DEFAULT, LOOP_BACK_DEFAULT = 4, 6
 FINGERPRINTS_AT_LAST_GREEN = {'lian.common_structs.BitVectorManager': 'ef53ad1540dfb649',
  'lian.common_structs.SimpleWorkList': '94de957e88d276e3',
  'lian.core.global_semantics.P3GlobalSemanticAnalysis.init_compute_frame': '8bba39f0c92f01ee',
- 'lian.core.prelim_semantics.P2PrelimSemanticAnalysis.analyze_reachable_symbols': '946be77f0a41a5a5',
+ 'lian.core.prelim_semantics.P2PrelimSemanticAnalysis.analyze_reachable_symbols': '26a839b7bdb6b8cd',
  'lian.core.prelim_semantics.P2PrelimSemanticAnalysis.analyze_stmts': 'bf0b658462742a13',
  'lian.core.prelim_semantics.P2PrelimSemanticAnalysis.rerun_analyze_reachable_symbols': 'fc77f21985ff3f79',
  'lian.core.prelim_semantics.P2PrelimSemanticAnalysis.update_current_symbol_bit': 'a1b93d8edc709b31',
@@ -43,9 +43,11 @@ class Gen:
     """Call-free Python functions: straight-line code, if/else, early return, break/continue,
     while / for-in nested <= 2, 2-4 variables."""
 
-    def __init__(self, rng, nvars, size, loops=True, toplevel=False):
+    def __init__(self, rng, nvars, size, loops=True, toplevel=False, calls=False):
         self.rng = rng
         self.toplevel = toplevel     # module-level code: no `return`
+        self.calls = calls           # calls of the HELPERS in the middle of the code (interruption + rerun pass)
+        self.nested = 0
         self.vars = ["x", "y", "z", "w"][:nvars]
         self.size = size            # 1 small .. 3 large
         self.max_if = 1 + size
@@ -85,6 +87,28 @@ class Gen:
             if k < 0.12:
                 self.hit("augassign")
                 return [f"{ind}{rng.choice(self.vars)} += {rng.randint(1, 5)}"]
+            if self.calls and k > 0.80:
+                # the call result goes to a variable that was (very likely) defined before and is used after
+                self.hit("call")
+                h = rng.choice(["set_g0", "set_g1", "idf"])
+                return [f"{ind}{rng.choice(self.vars)} = {h}({rng.choice(self.vars + ['c'])})"]
+            if self.calls and k > 0.72:
+                self.hit("global_use")
+                return [f"{ind}{rng.choice(self.vars)} = {rng.choice(['g0', 'g1'])}"]
+            if k > 0.66 and k <= 0.72:
+                # conditional expression: the frontend defines one temporary on both arms
+                self.hit("ternary")
+                v = rng.choice
+                return [f"{ind}{v(self.vars)} = {v(self.vars)} if {self.cond()} else {v(self.vars + ['7'])}"]
+            if k > 0.64 and k <= 0.66 and self.nested < 2:
+                # a nested def is a definition of its name (stmt id == symbol id, like a declaration)
+                self.hit("nested_def")
+                self.nested += 1
+                n = f"h{self.nested}"
+                out = [f"{ind}def {n}(q):", f"{ind}    return q"]
+                if rng.random() < 0.6:
+                    out += [f"{ind}if {self.cond()}:", f"{ind}    {n} = {rng.randint(1, 9)}"]
+                return out + [f"{ind}{rng.choice(self.vars)} = {n}"]
             if k < 0.34:
                 # an assignment that reads its own target (x = x + 1, x = x + y, x = y + x)
                 self.hit("self_assign")
@@ -152,28 +176,28 @@ class Gen:
         return [f"def {name}({', '.join(params)}):"] + body, len(params)
 
 
-def gen_toplevel(rng, n, loops_share=0.7):
+def gen_toplevel(rng, n, loops_share=0.7, calls=False):
     """n programs whose statements sit at module level: lian analyses each file's `%unit_init` as an ENTRY
     method (its own symbol/state space, index baseline 0) — a different path through init_compute_frame than
     a callee frame, whose pre-registered definition nodes are re-indexed after they were hashed."""
     progs, stats = [], {}
     for i in range(n):
-        size = rng.choices([1, 2, 3], [0.5, 0.4, 0.1])[0]
-        g = Gen(rng, rng.randint(2, 4), size, loops=(rng.random() < loops_share), toplevel=True)
+        size = rng.choices([1, 2, 3], [0.8, 0.2, 0.0] if calls else [0.5, 0.4, 0.1])[0]
+        g = Gen(rng, rng.randint(2, 4), size, loops=(rng.random() < loops_share), toplevel=True, calls=calls)
         body = g.block(rng.randint(2, 3 + 2 * size), 0, 0, "")
         body.append(f"{rng.choice(g.vars)} = {rng.choice(g.vars)}")
-        progs.append("\n".join(body) + "\n")
+        progs.append((HELPERS if calls else "") + "\n".join(body) + "\n")
         for k, v in g.stats.items():
             stats[k] = stats.get(k, 0) + v
     return progs, stats
 
 
-def gen_functions(rng, n, loops_share=0.7):
+def gen_functions(rng, n, loops_share=0.7, calls=False):
     """returns list of (name, source lines, nparams) and construct statistics"""
     funs, stats = [], {}
     for i in range(n):
-        size = rng.choices([1, 2, 3], [0.45, 0.4, 0.15])[0]
-        g = Gen(rng, rng.randint(2, 4), size, loops=(rng.random() < loops_share))
+        size = rng.choices([1, 2, 3], [0.6, 0.35, 0.05] if calls else [0.45, 0.4, 0.15])[0]
+        g = Gen(rng, rng.randint(2, 4), size, loops=(rng.random() < loops_share), calls=calls)
         lines, npar = g.function(f"f{i}")
         funs.append((f"f{i}", lines, npar))
         for k, v in g.stats.items():
@@ -218,9 +242,9 @@ def systematic_functions():
     return out
 
 
-def pack_source(funs):
+def pack_source(funs, helpers=False):
     """each function is called once from top level (methods not reachable from an entry are not analysed in P3)"""
-    lines, calls = [], []
+    lines, calls = (HELPERS.rstrip("\n").split("\n") + [""] if helpers else []), []
     for name, fl, npar in funs:
         lines += fl + [""]
         calls.append(f"{name}({', '.join(str(k) for k in range(npar))})")
@@ -229,28 +253,51 @@ def pack_source(funs):
 
 TAG = "lvtag"
 
+# helper functions of call-bearing programs: two assign a module-level variable through `global` (the call
+# statement then IMPLICITLY defines that variable in the caller: rerun_analyze_reachable_symbols), one is pure
+HELPERS = """g0 = 0
+g1 = 0
+def set_g0(t):
+    global g0
+    g0 = t
+    return t
+def set_g1(t):
+    global g1
+    g1 = t + 1
+    return g1
+def idf(t):
+    return t
+"""
+
+
+def split_helpers(src):
+    return (True, src[len(HELPERS):]) if src.startswith(HELPERS) else (False, src)
+
 
 def is_toplevel_program(src):
     try:
-        return not any(isinstance(n, ast.FunctionDef) for n in ast.parse(src).body)
+        return not any(isinstance(n, ast.FunctionDef) for n in ast.parse(split_helpers(src)[1]).body)
     except SyntaxError:
         return False
 
 
 def pack_programs(progs, prefix="k"):
-    """programs (each either one function + its call, or module-level code) -> (files, names): function
-    programs share one file under the names <prefix>i; every module-level program gets its own file that
-    starts with `lvtag = i`, by which the worker recognises its %unit_init and calls it top<i>."""
-    files, names, funs = [], [], []
+    """programs (each either one function + its call, or module-level code; optionally preceded by HELPERS)
+    -> (files, names): function programs share one file under the names <prefix>i (one copy of HELPERS on top
+    when any of them needs it); every module-level program gets its own file that starts with `lvtag = i`, by
+    which the worker recognises its %unit_init and calls it top<i>."""
+    files, names, funs, need = [], [], [], False
     for i, src in enumerate(progs):
+        hp, body = split_helpers(src)
         if is_toplevel_program(src):
-            files.append((f"t{i:04d}.py", f"{TAG} = {i}\n" + src))
+            files.append((f"t{i:04d}.py", f"{TAG} = {i}\n" + (HELPERS if hp else "") + body))
             names.append(f"top{i}")
         else:
-            funs.append(rename_function(src, f"{prefix}{i}"))
+            need = need or hp
+            funs.append(rename_function(body, f"{prefix}{i}"))
             names.append(f"{prefix}{i}")
     if funs:
-        files.append(("pack.py", "\n".join(funs)))
+        files.append(("pack.py", (HELPERS if need else "") + "\n".join(funs)))
     return files, names
 
 
@@ -316,22 +363,91 @@ def worker(workdir):
             fingerprints[f"{mod}.{qual}"] = "missing:" + type(e).__name__
 
     visits, calls = [], []
-    orig = ps.P2PrelimSemanticAnalysis.analyze_reachable_symbols
-    orig_as = ps.P2PrelimSemanticAnalysis.analyze_stmts
+    in_trace = {}        # frame key -> [sorted in set at every visit]
+    use_sites = {}       # frame key -> {(stmt, used symbol id): {"union": set, "last": list, "n": int, "bad": [...]}}
+    reruns = {}          # frame key -> [(stmt, [implicit symbol ids])]
+    implicit_final = {}  # frame key -> {stmt: [symbol ids]}
+    counter = [0]
+    P = ps.P2PrelimSemanticAnalysis
+    orig, orig_as = P.analyze_reachable_symbols, P.analyze_stmts
+    orig_chk, orig_rerun = P.check_reachable_symbol_defs, P.rerun_analyze_reachable_symbols
+    from lian.common_structs import Symbol
+
+    def fkey(frame):
+        k = getattr(frame, "_lv_key", None)
+        if k is None:
+            counter[0] += 1
+            k = counter[0]
+            try:
+                frame._lv_key = k
+            except Exception:
+                k = id(frame)
+        return k
+
+    def pairs(bits):
+        return sorted({(int(d.symbol_id), int(d.stmt_id)) for d in bits})
 
     def wrapped(self, stmt_id, stmt, frame):
-        visits.append((id(frame), int(frame.method_id), int(stmt_id)))
-        return orig(self, stmt_id, stmt, frame)
+        k = fkey(frame)
+        visits.append((k, int(frame.method_id), int(stmt_id)))
+        r = orig(self, stmt_id, stmt, frame)
+        in_trace.setdefault(k, []).append(pairs(frame.stmt_id_to_status[stmt_id].in_symbol_bits))
+        return r
+
+    def wrapped_chk(self, stmt_id, frame, status, used_symbol_index, used_symbol, available_symbol_defs):
+        # the use-site layer: what the analysis TREATS as reaching the use of `used_symbol` at `stmt_id`
+        res = orig_chk(self, stmt_id, frame, status, used_symbol_index, used_symbol, available_symbol_defs)
+        sym = int(used_symbol.symbol_id)
+        got = pairs(res)
+        proj = sorted({(int(d.symbol_id), int(d.stmt_id)) for d in available_symbol_defs if d.symbol_id == used_symbol.symbol_id})
+        external = [(sym, int(stmt_id))]          # pseudo definition of a symbol the method never defines
+        rec = use_sites.setdefault(fkey(frame), {}).setdefault((int(stmt_id), sym),
+                                                               {"union": set(), "last": [], "n": 0, "bad": [], "ext": 0})
+        rec["n"] += 1
+        if got == external and not proj:
+            rec["ext"] += 1
+            return res
+        rec["union"].update(got)
+        rec["last"] = got
+        if got != proj and len(rec["bad"]) < 3:
+            rec["bad"].append({"available_of_symbol": proj, "treated_as_reaching": got})
+        return res
+
+    def wrapped_rerun(self, stmt_id, stmt, frame, result_flag):
+        st = frame.stmt_id_to_status[stmt_id]
+        syms = []
+        for idx in st.implicitly_defined_symbols:
+            it = frame.symbol_state_space[idx]
+            if isinstance(it, Symbol):
+                syms.append(int(it.symbol_id))
+        reruns.setdefault(fkey(frame), []).append((int(stmt_id), syms))
+        return orig_rerun(self, stmt_id, stmt, frame, result_flag)
 
     def wrapped_as(self, frame):
         r = orig_as(self, frame)
-        calls.append((id(frame), int(frame.method_id),
+        k = fkey(frame)
+        calls.append((k, int(frame.method_id),
                       bool(r is not None and getattr(r, "interruption_flag", False)),
                       int(self.max_analysis_round), int(self.analysis_phase_id)))
+        snap = {}
+        try:
+            for sid, st in frame.stmt_id_to_status.items():
+                syms = []
+                for idx in st.implicitly_defined_symbols:
+                    it = frame.symbol_state_space[idx]
+                    if isinstance(it, Symbol):
+                        syms.append([int(it.symbol_id), str(it.name)])
+                if syms:
+                    snap[int(sid)] = syms
+        except Exception:
+            pass
+        implicit_final[k] = snap
         return r
 
-    ps.P2PrelimSemanticAnalysis.analyze_reachable_symbols = wrapped
-    ps.P2PrelimSemanticAnalysis.analyze_stmts = wrapped_as
+    P.analyze_reachable_symbols = wrapped
+    P.analyze_stmts = wrapped_as
+    P.check_reachable_symbol_defs = wrapped_chk
+    P.rerun_analyze_reachable_symbols = wrapped_rerun
     from lian.main import Lian
     ws = os.path.join(workdir, "ws")
     sys.argv = ["lian", "semantic", "-l", "python", "-w", ws, "-f", "-q", os.path.join(workdir, "src")]
@@ -351,6 +467,9 @@ def worker(workdir):
            "fingerprints": fingerprints, "time": elapsed, "error": err, "log": buf.getvalue()[-1500:],
            "methods": []}
     wsd = os.path.join(ws, "lian_workspace")
+    src_texts = {}
+    for fn_ in os.listdir(os.path.join(workdir, "src")):
+        src_texts[fn_] = open(os.path.join(workdir, "src", fn_)).read()
 
     def rd(pat):
         fs = sorted(glob.glob(os.path.join(wsd, pat)), key=lambda p: (len(p), p))
@@ -369,20 +488,25 @@ def worker(workdir):
         line = {int(r.stmt_id): (None if r.start_row != r.start_row else int(r.start_row)) for r in gir.itertuples()}
         def _s(x):
             return x if isinstance(x, str) and x else None
-        gir_def, tag_of_stmt = {}, {}
+        gir_def, tag_of_stmt, call_name, unit_globals, unit_of_stmt = {}, {}, {}, {}, {}
         cols = set(gir.columns)
         for r in gir.itertuples():
             o = r.operation
             tgt = _s(getattr(r, "target", None)) if "target" in cols else None
             nm = _s(getattr(r, "name", None)) if "name" in cols else None
-            if o in ("variable_decl", "parameter_decl", "forin_stmt", "for_value_stmt"):
-                gir_def[int(r.stmt_id)] = nm
-            elif o in ("block_start", "block_end", "method_decl", "class_decl"):
+            if o in ("variable_decl", "parameter_decl", "forin_stmt", "for_value_stmt", "method_decl", "class_decl"):
+                gir_def[int(r.stmt_id)] = nm          # a nested def / class is a definition of its name
+            elif o in ("block_start", "block_end"):
                 continue
             else:
                 gir_def[int(r.stmt_id)] = tgt
             if o == "assign_stmt" and tgt == TAG and "operand" in cols and str(r.operand).isdigit():
                 tag_of_stmt[int(r.stmt_id)] = int(r.operand)
+            if o == "call_stmt":
+                call_name[int(r.stmt_id)] = nm
+            if o == "variable_decl" and int(r.parent_stmt_id) == 0 and nm:
+                unit_globals.setdefault(int(r.unit_id), {})[nm] = int(r.stmt_id)
+            unit_of_stmt[int(r.stmt_id)] = int(r.unit_id)
         name_of = {}
         for r in names.itertuples():
             for m in r.method_id:
@@ -405,9 +529,11 @@ def worker(workdir):
             m["method_id"] = mid
             m["name"] = name_of.get(mid)
             m["defs"], m["symname"], m["gir_mismatch"] = {}, {}, []
+            m["file"] = "pack.py"
             for sid in m["status"]:
                 if sid in tag_of_stmt:
                     m["name"] = f"top{tag_of_stmt[sid]}"
+                    m["file"] = f"t{tag_of_stmt[sid]:04d}.py"
             for sid, (dsym, impl) in m["status"].items():
                 stmt_to_method[sid] = mid
                 ds = []
@@ -449,7 +575,9 @@ def worker(workdir):
             fr = frames.get(mid, {})
             res["methods"].append({
                 "method_id": mid, "name": m["name"], "edges": m["edges"], "stmts": m["stmts"], "loops": m["loops"],
-                "gir_mismatch": m["gir_mismatch"],
+                "gir_mismatch": m["gir_mismatch"], "file_text": src_texts.get(m["file"]),
+                "call_stmts": [[s_, call_name[s_]] for s_ in m["stmts"] if s_ in call_name],
+                "unit_globals": sorted(unit_globals.get(unit_of_stmt.get(m["stmts"][0], -1), {}).items()) if m["stmts"] else [],
                 "defs": [[s, m["defs"][s]] for s in m["stmts"]],
                 "op": [[s, m["op"][s]] for s in m["stmts"]], "line": [[s, m["line"][s]] for s in m["stmts"]],
                 "symname": [[k, v] for k, v in sorted(m["symname"].items())],
@@ -459,6 +587,11 @@ def worker(workdir):
                 "rows_per_stmt": max([len(v) for v in m["real"].values()] or [0]),
                 "contexts": len(m["contexts"]),
                 "visits": list(fr.values())[0] if len(fr) == 1 else None,
+                "in_trace": in_trace.get(list(fr)[0]) if len(fr) == 1 else None,
+                "use_sites": [[st_, sy, sorted(r["union"]), r["last"], r["n"], r["bad"], r["ext"]]
+                              for (st_, sy), r in sorted(use_sites.get(list(fr)[0], {}).items())] if len(fr) == 1 else None,
+                "reruns": reruns.get(list(fr)[0], []) if len(fr) == 1 else None,
+                "implicit_final": sorted(implicit_final.get(list(fr)[0], {}).items()) if len(fr) == 1 else None,
                 "frames": len(fr),
                 "analyze_stmts_calls": ci["n"] if ci else 0,
                 "interrupted": bool(ci["interrupted"]) if ci else False,
@@ -602,23 +735,63 @@ def oracle(edges, stmts, defs, loops, loop_true):
 
 
 # ====================================================================== per-method evaluation
+def model_defs(m):
+    """defined-symbol table fed to the MODEL: `[status.defined_symbol] + status.implicitly_defined_symbols` as
+    the real run ended up with them (P1 table + the implicit definitions harvested in memory)"""
+    impl = {s: [x[0] for x in syms] for s, syms in (m.get("implicit_final") or [])}
+    return [[s, list(ds) + [x for x in impl.get(s, []) if x not in ds]] for s, ds in m["defs"]]
+
+
+def helper_globals(text):
+    """ground truth for implicit definitions, from the program text alone: module-level function -> names it
+    declares `global` and assigns"""
+    out = {}
+    try:
+        tree = ast.parse(text or "")
+    except SyntaxError:
+        return out
+    for fn in tree.body:
+        if isinstance(fn, ast.FunctionDef):
+            gl = {n for st in ast.walk(fn) if isinstance(st, ast.Global) for n in st.names}
+            asg = {t.id for st in ast.walk(fn) if isinstance(st, (ast.Assign, ast.AugAssign))
+                   for t in (st.targets if isinstance(st, ast.Assign) else [st.target]) if isinstance(t, ast.Name)}
+            out[fn.name] = sorted(gl & asg)
+    return out
+
+
+def oracle_defs(m):
+    """defined-symbol table fed to the ORACLE: P1 explicit definitions (cross-checked against the GIR rows) +, for
+    every call statement, the module-level variables the callee assigns through `global` (from the program text)"""
+    hg = helper_globals(m.get("file_text"))
+    gid = dict(m.get("unit_globals") or [])
+    callee = dict(m.get("call_stmts") or [])
+    out = {}
+    for s, ds in m["defs"]:
+        extra = [gid[n] for n in hg.get(callee.get(s), []) if n in gid]
+        out[s] = list(ds) + [x for x in extra if x not in ds]
+    return out
+
+
 def model_request(m, params, variant):
     return {"m": "reachdef", "variant": variant, "edges": m["edges"], "stmts": m["stmts"], "loops": m["loops"],
-            "defs": m["defs"], "max_round": m["max_round"], "weight_works": params["weight_works"],
+            "defs": model_defs(m), "max_round": m["max_round"], "weight_works": params["weight_works"],
             "loop_back": params["loop_back"]}
 
 
 def comparable(m):
-    """methods the model speaks about: analysed once, in one frame, never interrupted by a callee, no
-    implicitly defined symbols, and analysed by the GLOBAL phase (the PRELIM shortcut is not modelled)"""
+    """methods the model speaks about: analysed in exactly one frame and one context by the GLOBAL phase (the
+    PRELIM shortcut is not modelled).  Interruption by callee analysis and implicit definitions are inside the
+    fragment since round 3: on resume `analyze_reachable_symbols` is skipped, so the visit sequence is that of
+    an uninterrupted run, and the rerun pass adds the implicit definitions to the out set — the model runs with
+    explicit + implicit definitions of the call statement."""
     if m["visits"] is None or m["frames"] != 1 or m["contexts"] != 1 or m["rows_per_stmt"] != 1:
         return "not-analysed-exactly-once"
-    if m["interrupted"] or m["analyze_stmts_calls"] != 1:
-        return "interrupted-by-callee"
-    if m["implicit"]:
-        return "implicit-definitions"
     if m["phase"] is None or m["max_round"] is None:
         return "no-frame"
+    if (m["interrupted"] or m["analyze_stmts_calls"] != 1) and m["loops"]:
+        # on resume the loop re-peeks work_list[0]; inside a loop that can be a different statement than the
+        # interrupted call (a back-edge target sifted to the front) — that interplay is not modelled
+        return "interrupted-inside-a-method-with-loops"
     return None
 
 
@@ -634,7 +807,8 @@ def evaluate(methods, params):
     outs = drv_ok(drv_batch(reqs)) if reqs else []
     for k, m in enumerate(methods):
         mo, idl, chk = outs[3 * k], outs[3 * k + 1], outs[3 * k + 2]
-        defs = {s: ds for s, ds in m["defs"]}
+        defs = oracle_defs(m)
+        mdefs = {s: ds for s, ds in model_defs(m)}
         orc = oracle(m["edges"], m["stmts"], defs, m["loops"], params["loop_true"])
         rin = {s: {tuple(d) for d in ds} for s, ds in m["real_in"]}
         m_in = [[s, ds] for s, ds in mo["in"]]
@@ -645,6 +819,8 @@ def evaluate(methods, params):
             diffs.append("in")
         if [[s, ds] for s, ds in mo["out"]] != [[s, sorted(ds)] for s, ds in m["real_out"]]:
             diffs.append("out")
+        if m.get("in_trace") is not None and mo.get("in_trace") != [[list(d) for d in t] for t in m["in_trace"]]:
+            diffs.append("in-set-at-every-visit")
         lost, dead = {}, {}
         for s in m["stmts"]:
             if s not in orc["reach"]:
@@ -655,18 +831,45 @@ def evaluate(methods, params):
                 lost[s] = sorted(l)
             if d:
                 dead[s] = sorted(d)
+        # ---- the use-site layer: what check_reachable_symbol_defs handed to the symbol graph / state computation
+        method_syms = {x for ds in defs.values() for x in ds} | {x for ds in mdefs.values() for x in ds}
+        use_lost, use_dead, proj_bad, n_use = {}, {}, [], 0
+        opmap = dict(m["op"])
+        for (st, sym, union, last, n, bad, ext) in (m.get("use_sites") or []):
+            if bad:
+                proj_bad.append({"stmt": st, "symbol": sym, "examples": bad})
+            if sym not in method_syms or st not in orc["reach"] or n == ext:
+                continue
+            n_use += 1
+            treated = {tuple(d) for d in union}
+            # a hoisted `variable_decl` carries no value: an analysis may legitimately not treat it as reaching a
+            # use, so it is not REQUIRED at the use-site layer (it stays allowed, and stays required in the in sets,
+            # where lian generates it by construction)
+            l = {d for d in orc["must"][st] if d[0] == sym and opmap.get(d[1]) != "variable_decl"} - treated
+            d = treated - {d for d in orc["may"][st] if d[0] == sym}
+            if l:
+                use_lost[(st, sym)] = sorted(l)
+            if d:
+                use_dead[(st, sym)] = sorted(d)
         iin = {s: {tuple(d) for d in ds} for s, ds in idl["in"]}
         ideal_ok = idl["converged"] and all(iin[s] == orc["may"][s] for s in m["stmts"]) and \
             all(orc["must"][s] <= iin[s] for s in m["stmts"] if s in orc["reach"])
         m["v"] = {"corr_diffs": diffs, "lost": lost, "dead": dead, "ideal_ok": bool(ideal_ok),
+                  "use_lost": use_lost, "use_dead": use_dead, "use_projection_bad": proj_bad, "use_sites_checked": n_use,
+                  "implicit_vs_ground_truth": sorted(s for s in defs if sorted(defs[s]) != sorted(mdefs.get(s, []))),
                   "cyclic": orc["cyclic"], "multi_entry": orc["multi_entry"], "once_ok": orc["once_ok"],
                   "skips": mo["skips"], "skip_stmts": mo.get("skip_stmts", []), "finished": mo["finished"],
-                  "defs_of": defs, "ideal_converged": idl["converged"],
+                  "defs_of": mdefs, "ideal_converged": idl["converged"],
                   "ideal_topo": idl["topo"], "ideal_sweeps": idl["sweeps"], "real_fixpoint": chk["fixpoint"],
                   "model_visits": mo["visits"], "model_in": mo["in"], "exact": all(rin[s] == orc["may"][s] for s in m["stmts"] if s in orc["reach"]),
                   "n_reach": sum(1 for s in m["stmts"] if s in orc["reach"]),
                   "must_eq_may": all(orc["must"][s] == orc["may"][s] for s in m["stmts"] if s in orc["reach"])}
     return methods
+
+
+def fails(v):
+    """any oracle failure: at the in sets or at the use sites"""
+    return bool(v["lost"] or v["dead"] or v["use_lost"] or v["use_dead"])
 
 
 def pretty_defs(m, ds):
@@ -677,23 +880,27 @@ def pretty_defs(m, ds):
 
 def findings_for(v):
     """MODEL-PREDICTED matcher (DESIGN §2.5).  Returns the set of finding ids that together account for every
-    oracle failure of this method, or None when some failure is not a recorded one.
-    Common to all three: (1) the real visit sequence, in sets and out sets equal the frozen faithful model's
-    on the real CFG, and (3) the idealised solver passes the oracle on the same input.
+    oracle failure of this method (at the in sets and at the use sites), or None when some failure is not a
+    recorded one.
+    Common to all three: (1) the real visit sequence, the in set at EVERY visit, the final in and out sets equal
+    the frozen faithful model's on the real CFG, (2) every real call of check_reachable_symbol_defs returned
+    exactly the projection of its available set on the used symbol (so the use-site failures are the model's
+    too: C06_use_site_is_projection), and (3) the idealised solver passes the oracle on the same input.
     * lost definitions  -> C06/loop-def-lost (cyclic CFG) / C06/dag-join-def-lost (acyclic CFG)
     * dead definitions  -> C06/kill-skipped-dead-def, only if the frozen model itself took the
       `if key in current_bits: continue` shortcut in this run and every retained dead definition is a definition
       of a symbol defined by a statement at which the shortcut was taken."""
-    if not (v["lost"] or v["dead"]):
+    if not fails(v):
         return set()
-    if v["corr_diffs"] or not v["ideal_ok"]:
+    if v["corr_diffs"] or not v["ideal_ok"] or v["use_projection_bad"]:
         return None
     ids = set()
-    if v["lost"]:
+    if v["lost"] or v["use_lost"]:
         ids.add("C06/loop-def-lost" if v["cyclic"] else "C06/dag-join-def-lost")
-    if v["dead"]:
+    all_dead = [d for ds in v["dead"].values() for d in ds] + [d for ds in v["use_dead"].values() for d in ds]
+    if all_dead:
         skipped_syms = {sym for u in v["skip_stmts"] for sym in v["defs_of"].get(u, [])}
-        if not v["skip_stmts"] or any(d[0] not in skipped_syms for ds in v["dead"].values() for d in ds):
+        if not v["skip_stmts"] or any(d[0] not in skipped_syms for d in all_dead):
             return None
         ids.add("C06/kill-skipped-dead-def")
     return ids
@@ -709,6 +916,7 @@ def finding_for(v):
 def shrink_candidates(src):
     """single-step reductions of a one-function (or module-level) program: delete a statement, replace a compound statement by
     (one of) its bodies, drop an else branch."""
+    has_helpers, src = split_helpers(src)
     try:
         tree = ast.parse(src)
     except SyntaxError:
@@ -758,7 +966,7 @@ def shrink_candidates(src):
                     continue
                 if txt != src and txt not in out:
                     out.append(txt)
-    return out
+    return [HELPERS + t for t in out] if has_helpers else out
 
 
 def rename_function(src, new):
@@ -945,20 +1153,31 @@ def verdicts(ctx, methods, texts_by_name, scratch, stats, shrink=True):
                 stats["certificate_vs_oracle_disagreements"] += 1
         if v["exact"]:
             stats["real_exact"] += 1
-        if v["lost"] or v["dead"]:
+        stats["use_sites_checked"] += v["use_sites_checked"]
+        if v["use_projection_bad"]:
+            stats["methods_with_use_site_not_projection"] += 1
+        if v["implicit_vs_ground_truth"]:
+            stats["methods_implicit_defs_differ_from_ground_truth"] += 1
+        if m.get("interrupted"):
+            stats["methods_interrupted_by_callee_analysis"] += 1
+        if m.get("reruns"):
+            stats["methods_with_rerun_pass"] += 1
+        if fails(v):
             ids = findings_for(v)
             if ids and all(i in ctx.finding_ids("open") for i in ids):
                 for fid in sorted(ids):
                     stats["known:" + fid] += 1
                     if fid == "C06/kill-skipped-dead-def":
-                        s0 = sorted(v["dead"])[0]
+                        what = v["dead"] or {k[0]: d for k, d in v["use_dead"].items()}
+                        s0 = sorted(what)[0]
                         ctx.known(fid, f"e.g. {m['name']}: statement {s0} (line {dict(m['line']).get(s0)}) retains the overwritten "
-                                       f"{pretty_defs(m, v['dead'][s0])}; the frozen model ReachDef0 took the kill-skipping shortcut at statements "
+                                       f"{pretty_defs(m, what[s0])}; the frozen model ReachDef0 took the kill-skipping shortcut at statements "
                                        f"{v['skip_stmts']} and predicts exactly these sets, idealised solver passes the oracle")
                     else:
-                        s0 = sorted(v["lost"])[0]
+                        what = v["lost"] or {k[0]: d for k, d in v["use_lost"].items()}
+                        s0 = sorted(what)[0]
                         ctx.known(fid, f"e.g. {m['name']}: statement {s0} (line {dict(m['line']).get(s0)}) misses "
-                                       f"{pretty_defs(m, v['lost'][s0])}; real in/out/visits equal frozen model ReachDef0, idealised solver passes the oracle")
+                                       f"{pretty_defs(m, what[s0])}; real in/out/visits equal frozen model ReachDef0, idealised solver passes the oracle")
             else:
                 new_viol.append(m)
     return new_viol
@@ -970,16 +1189,20 @@ def report_violation(ctx, m, params, text, scratch, shrink=True, deadline=None):
     if shrink and text:
         def still(mm):
             vv = mm["v"]
-            return bool(vv["lost"] or vv["dead"]) and findings_for(vv) is None
+            return fails(vv) and findings_for(vv) is None
         try:
             prog = shrink_program(text, still, scratch, params, rounds=40, deadline=deadline)
         except Exception as e:           # shrinking is best effort
             prog = text
     ctx.violation({
-        "what": "real reaching-definition sets violate C06 (oracle: MUST ⊆ in ⊆ MAY on the real CFG) and the violation is not the recorded model-predicted finding",
+        "what": "real reaching-definition sets / the definitions treated as reaching at a use violate C06 (oracle: MUST ⊆ in ⊆ MAY on the real CFG, at the in sets and at the use sites) and the violation is not a recorded model-predicted finding",
         "program": prog, "original_program": text if prog != text else None, "function": m["name"],
         "lost": {str(s): pretty_defs(m, d) for s, d in v["lost"].items()},
         "dead": {str(s): pretty_defs(m, d) for s, d in v["dead"].items()},
+        "use_site_lost (stmt, used symbol) -> definitions not treated as reaching": {f"{k[0]},{k[1]}": pretty_defs(m, d) for k, d in v["use_lost"].items()},
+        "use_site_dead (stmt, used symbol) -> overwritten definitions treated as reaching": {f"{k[0]},{k[1]}": pretty_defs(m, d) for k, d in v["use_dead"].items()},
+        "use_site_not_projection_of_in_set": v["use_projection_bad"][:3],
+        "implicit_defs_differ_from_ground_truth_at": v["implicit_vs_ground_truth"],
         "correspondence_differs_in": v["corr_diffs"], "idealised_solver_passes_oracle": v["ideal_ok"],
         "real_visits": m["visits"], "model_visits": v["model_visits"], "params": params,
         "real_in": m["real_in"], "model_in": v["model_in"], "edges": m["edges"], "defs": m["defs"]})
@@ -1050,7 +1273,7 @@ def _run(ctx, proofs_ok, tier, scratch, stats):
     # ---- generated packs: functions called once from top level (callee frames) and module-level programs
     #      (entry frames: every file's %unit_init is an entry point with its own space, index baseline 0)
     if tier == "quick":
-        npacks, nfun, ntop, ntopn, timeout, par = 12, 12, 5, 16, 75, None
+        npacks, nfun, ntop, ntopn, timeout, par = 12, 12, 6, 16, 60, None
         if params0 is not None and corpus_res is not None and fingerprints_changed(corpus_res[3]):
             npacks, ntop = 18, 8   # an anchored source differs from the last green thorough run: look harder (scheduling only)
     else:
@@ -1075,18 +1298,20 @@ def _run(ctx, proofs_ok, tier, scratch, stats):
     n_sys = len(sysf) + len(systop)
     for p in range(npacks):
         sub = random.Random(ctx.rng.getrandbits(64))
-        funs, st = gen_functions(sub, nfun, loops_share=0.0 if p % 4 == 3 else 0.75)
+        with_calls = (p % 4 == 3)       # every 4th pack: loop-free callers of the HELPERS (interruption, rerun pass)
+        funs, st = gen_functions(sub, nfun, loops_share=0.0 if with_calls else 0.75, calls=with_calls)
         gen_stats.update(st)
-        text = pack_source(funs)
-        prog_of.append({name: function_source(text, name) for name, _, _ in funs})
-        packs.append((f"pack{p}", text))
+        text = pack_source(funs, helpers=with_calls)
+        prog_of.append({name: (HELPERS if with_calls else "") + function_source(text, name) for name, _, _ in funs})
+        packs.append((f"pack{p}" + ("-calls" if with_calls else ""), text))
     for p in range(ntop):
         sub = random.Random(ctx.rng.getrandbits(64))
-        progs, st = gen_toplevel(sub, ntopn, loops_share=0.0 if p % 3 == 2 else 0.7)
+        with_calls = (p % 3 == 2)
+        progs, st = gen_toplevel(sub, ntopn, loops_share=0.0 if with_calls else 0.7, calls=with_calls)
         gen_stats.update({"toplevel:" + k: v for k, v in st.items()})
         files, names = pack_programs(progs)
         prog_of.append(dict(zip(names, progs)))
-        packs.append((f"toplevel{p}", files))
+        packs.append((f"toplevel{p}" + ("-calls" if with_calls else ""), files))
     results = run_packs(packs, os.path.join(scratch, "gen"), timeout, parallel=par)
     params = params0
     fingerprints = None
@@ -1182,7 +1407,7 @@ def _run(ctx, proofs_ok, tier, scratch, stats):
     corr_methods = [m for m in all_methods if m["v"]["corr_diffs"]]
     flags_bad = [m for m in all_methods if (not m["v"]["finished"]) or (not m["v"]["ideal_converged"])
                  or (not m["v"]["cyclic"] and not m["v"]["ideal_topo"])
-                 or m.get("gir_mismatch")
+                 or m.get("gir_mismatch") or m["v"]["use_projection_bad"]
                  or (m["v"]["real_fixpoint"] and (m["v"]["lost"] or (m["v"]["skips"] == 0 and not m["v"]["corr_diffs"] and m["v"]["dead"])))]
     notes = texts.get("_corpus_notes")
     if not ctx.violations and (corr_methods or flags_bad or not proofs_ok or notes or wl_diff):
@@ -1226,11 +1451,14 @@ def replay(rp):
         evaluate(ms, res["params"])
         v = ms[0]["v"]
         if rp.get("no_failing_input_found"):
-            bad = bool(v["corr_diffs"]) or bool(v["lost"] or v["dead"]) and findings_for(v) is None
+            bad = bool(v["corr_diffs"] or v["use_projection_bad"]) or fails(v) and findings_for(v) is None
         else:
-            bad = bool(v["lost"] or v["dead"]) and findings_for(v) is None
+            bad = fails(v) and findings_for(v) is None
         print(json.dumps({"lost": {str(s): pretty_defs(ms[0], d) for s, d in v["lost"].items()},
                           "dead": {str(s): pretty_defs(ms[0], d) for s, d in v["dead"].items()},
+                          "use_site_lost": {f"{k[0]},{k[1]}": pretty_defs(ms[0], d) for k, d in v["use_lost"].items()},
+                          "use_site_dead": {f"{k[0]},{k[1]}": pretty_defs(ms[0], d) for k, d in v["use_dead"].items()},
+                          "use_site_not_projection": len(v["use_projection_bad"]),
                           "correspondence_differs_in": v["corr_diffs"], "known_finding": finding_for(v),
                           "violates": bool(bad)}))
         return 1 if bad else 0
